@@ -428,7 +428,13 @@ def impl(fn, *a, **kw):
         n = core.EXN_CODES.get(c, type(exc).__name__)
         return ("exn", EXN_EXTRA.get(n, n))
     finally:
-        _clean_modules()
+        # every other call leaves the imported sign / KMS script modules in place, as a process that signs several envelopes would
+        _calls[0] += 1
+        if _calls[0] % 2 == 0:
+            _clean_modules()
+
+
+_calls = [0]
 
 
 def impl_keep(fn, *a, **kw):
